@@ -398,6 +398,74 @@ func k8(args []string) {
 		res.C15 = append(res.C15, k8Case{"gogen-unrelated-test-file", outs["alone"] != "" && outs["alone"] == outs["with-unrelated-test-file"] && !strings.HasPrefix(outs["alone"], "cogen failed"),
 			diffHint(outs["alone"], outs["with-unrelated-test-file"])})
 	}
+	// further trees, one per observation of the defect hunt (each is a listed finding or a repaired defect)
+	if _, err := os.Stat(cogen); err == nil {
+		runIn := func(dir string) (string, error) {
+			c := exec.Command(cogen)
+			c.Dir = dir
+			c.Env = append(os.Environ(), "GOFILE=gen_co.go")
+			o, err := c.CombinedOutput()
+			return string(o), err
+		}
+		gen := func(pkg, extraImport, extraDecl string) string {
+			return "//go:build co\n\npackage " + pkg + "\n\nimport (\n" + extraImport + "\t. \"github.com/goghcrow/go-co\"\n)\n\n//go:generate true\n\n" + extraDecl +
+				"func Nums(n int) Iter[int] {\n\tfor i := 0; i < n; i++ {\n\t\tYield(i)\n\t}\n\treturn nil\n}\n"
+		}
+		// (a) a blank import of a non-test co file survives when the package also has a co test file
+		{
+			root := filepath.Join(mod, "g5")
+			mustWrite(filepath.Join(root, "codec", "gen_co.go"), gen("codec", "\t_ \"image/png\"\n", ""))
+			mustWrite(filepath.Join(root, "codec", "gen_co_test.go"), "//go:build co\n\npackage codec\n\nimport (\n\t\"testing\"\n\n\t. \"github.com/goghcrow/go-co\"\n)\n\nfunc twice(n int) Iter[int] {\n\tfor v := range Nums(n) {\n\t\tYield(2 * v)\n\t}\n\treturn nil\n}\n\nfunc TestNums(t *testing.T) {\n\tn := 0\n\tfor v := range twice(3) {\n\t\tn += v\n\t}\n\tif n != 6 {\n\t\tt.Fatal(n)\n\t}\n}\n")
+			o, err := runIn(filepath.Join(root, "codec"))
+			b, _ := os.ReadFile(filepath.Join(root, "codec", "gen.go"))
+			res.C16 = append(res.C16, k8Case{"blank-import-kept-with-test-file", err == nil && strings.Contains(string(b), "_ \"image/png\""), "gen.go imports: " + importLines(string(b)) + " " + lastLineWith(o, "panic")})
+		}
+		// (b) the package is the ROOT of its module (the quick-start layout): a module of its own
+		{
+			// (outside the scratch module: next to it, where no other module encloses the directory)
+			root := filepath.Join(*dir, "quickroot", "quick")
+			os.RemoveAll(filepath.Join(*dir, "quickroot"))
+			gm, _ := os.ReadFile(filepath.Join(mod, "go.mod"))
+			mustWrite(filepath.Join(root, "go.mod"), strings.Replace(string(gm), "module scratch", "module quick", 1))
+			gs, _ := os.ReadFile(filepath.Join(mod, "go.sum"))
+			mustWrite(filepath.Join(root, "go.sum"), string(gs))
+			mustWrite(filepath.Join(root, "gen_co.go"), gen("quick", "", ""))
+			o, err := runIn(root)
+			_, serr := os.Stat(filepath.Join(root, "gen.go"))
+			res.C16 = append(res.C16, k8Case{"package-at-module-root", err == nil && serr == nil, fmt.Sprintf("cogen ok=%v gen.go written=%v %s", err == nil, serr == nil, lastLineWith(o, "skip optimize"))})
+		}
+		// (c) a directory of the user named <pkg>_tmp next to the package is left alone
+		{
+			root := filepath.Join(mod, "g7")
+			mustWrite(filepath.Join(root, "store", "gen_co.go"), gen("store", "", ""))
+			mustWrite(filepath.Join(root, "store_tmp", "NOTES.txt"), "mine\n")
+			o, err := runIn(filepath.Join(root, "store"))
+			_, serr := os.Stat(filepath.Join(root, "store_tmp", "NOTES.txt"))
+			res.C16 = append(res.C16, k8Case{"user-directory-named-like-the-temporary-one", serr == nil, fmt.Sprintf("cogen ok=%v store_tmp/NOTES.txt still there=%v %s", err == nil, serr == nil, lastLineWith(o, "panic"))})
+		}
+		// (d) the package has a hand-written file that declares types the co file uses: imports needed only
+		// together with those types must stay, and an eta-shaped closure that converts between them must stay
+		{
+			root := filepath.Join(mod, "g8")
+			mustWrite(filepath.Join(root, "pkg", "types.go"), "package pkg\n\ntype Set[T comparable] map[T]struct{}\n\ntype Problem interface{ Problem() string }\n\ntype Missing []string\n\nfunc (m Missing) Problem() string { return \"missing\" }\n")
+			mustWrite(filepath.Join(root, "pkg", "gen_co.go"), gen("pkg", "\t\"time\"\n\n",
+				"var Slow = Set[time.Duration]{time.Second: {}}\n\nfunc missing(want []string) Missing { return nil }\n\nfunc Check(want []string) string {\n\tvalidate := func(want []string) Problem { return missing(want) }\n\tif p := validate(want); p != nil {\n\t\treturn \"problem\"\n\t}\n\treturn \"fine\"\n}\n\n"))
+			o, err := runIn(filepath.Join(root, "pkg"))
+			b, _ := os.ReadFile(filepath.Join(root, "pkg", "gen.go"))
+			okImp := strings.Contains(string(b), "\"time\"")
+			okEta := strings.Contains(string(b), "func(want []string) Problem")
+			res.C16 = append(res.C16, k8Case{"hand-written-sibling-declares-the-types", err == nil && okImp && okEta, fmt.Sprintf("cogen ok=%v import of time kept=%v converting closure kept=%v %s", err == nil, okImp, okEta, lastLineWith(o, "panic"))})
+		}
+		// (e) build constraints of the source beyond the co tag carry over to the derived file
+		{
+			root := filepath.Join(mod, "g9")
+			mustWrite(filepath.Join(root, "impl", "gen_co.go"), strings.Replace(gen("impl", "", ""), "//go:build co\n", "//go:build co && !alt\n", 1))
+			o, err := runIn(filepath.Join(root, "impl"))
+			b, _ := os.ReadFile(filepath.Join(root, "impl", "gen.go"))
+			first := strings.SplitN(string(b), "\n", 2)[0]
+			res.C13 = append(res.C13, k8Case{"build-constraint-beyond-co-kept", err == nil && strings.Contains(first, "alt"), fmt.Sprintf("source: //go:build co && !alt; derived file starts with %q %s", first, lastLineWith(o, "panic"))})
+		}
+	}
 	// a third tree: a co file of a sub-package IMPORTS the package above it, whose generators are generated in
 	// the same run (finding D26 on this tree: the optimise stage type-checks the temporary copy of the
 	// sub-package against the real upper package, which has no generated file yet)
@@ -536,4 +604,24 @@ func uniqueHelpers(src string) k8Case {
 		}
 	}
 	return k8Case{"helper-identifiers-unique", len(dup) == 0 && len(counts) >= 4, fmt.Sprintf("%d helpers, duplicates=%v", len(counts), dup)}
+}
+
+// importLines: the import specs of a Go source, on one line
+func importLines(src string) string {
+	var out []string
+	in := false
+	for _, l := range strings.Split(src, "\n") {
+		t := strings.TrimSpace(l)
+		switch {
+		case strings.HasPrefix(t, "import ("):
+			in = true
+		case in && t == ")":
+			in = false
+		case in && t != "":
+			out = append(out, t)
+		case strings.HasPrefix(t, "import "):
+			out = append(out, strings.TrimPrefix(t, "import "))
+		}
+	}
+	return strings.Join(out, "; ")
 }
